@@ -26,7 +26,7 @@ RULE = ("one PRNG (VERIF_SEED) draws a DAG of 3-12 nodes (quick; up to 30 thorou
         "a 'zones' family builds memos `tracked + untrack(|| stale_memo + signal ...)` (several reads in one untrack zone, the memo "
         "pulled first) and writes the untracked sources; an 'immediate' family puts ImmediateEffects among the subscribers (they re-run "
         "and re-subscribe inside the marking phase of a write; oracle only); a 'deep' family reads the far end of chains of 270-450 "
-        "(thorough: up to 1000) memos, a few links being small diamonds. "
+        "(thorough: up to 700) memos, a few links being small diamonds. "
         "A case is non-trivial when some memo body ran at least twice; distinct = distinct case hash.")
 TRUSTED = [
     "Coq 8.16.1 kernel (coqc); no axioms: every theorem of Properties_C01.v is 'Closed under the global context'",
@@ -88,8 +88,9 @@ def generate(rng, tier):
     # deep chains (a few links are small diamonds), read at the far end; spread over the stream
     deep = []
     for i in range(6 if tier == "quick" else 24):
-        depth = rng.randint(270, 400) if (tier == "quick" or i % 3) else rng.randint(600, 1000)
-        deep.append(dict(case=C.norm(X.gen_deep_case(rng, depth, n_diamonds=rng.choice([0, 2, 5]), with_effect=(i % 3 == 2))),
+        big = tier != "quick" and i % 3 == 0       # (the model's cost grows with the cube of the depth)
+        depth = rng.randint(500, 700) if big else rng.randint(270, 400)
+        deep.append(dict(case=C.norm(X.gen_deep_case(rng, depth, n_diamonds=0 if big else rng.choice([0, 2, 5]), with_effect=(i % 3 == 2))),
                          kind="deep", compare=True))
     return X.interleave(_main_stream(rng, tier), deep, 3000 if tier == "quick" else 8000)
 
